@@ -228,3 +228,41 @@ def pairpos2_flatten_keeps_lookup(shape):
     flat = MG._Lookup_PairPosFormat2_subtables_flatten(subs, _Font(GLYPHS))
     observe('classes', [len(flat.Class1Record), len(flat.Class1Record[0].Class2Record) if flat.Class1Record else 0])
     ob('same-pairs', same_pairs(before, [flat], GLYPHS))
+
+
+# ------------------------------------------------------------------------------------------------ CFF2 region bookkeeping across sparse sub-models
+import fontTools.varLib.cff as VCFF
+from harness.common import Rec
+shim_all(VCFF)
+
+
+@kernel('C10', funcs=['varLib/cff.py:_add_new_vsindex', 'varLib/builder.py:buildVarData'],
+        bounds='two or three (sub-)models registered one after the other, each with 1-2 one-axis supports whose (start, peak, end) are SYMBOLIC reals - so whether a later model '
+               'reuses a region that an earlier one registered (and which one: the first, the last, none) is a solver fork: every VarData region index of every model points, '
+               'in the shared region list, at a region equal to the support it stands for; the region list has no duplicates',
+        quick=[dict(shape=[2, 1])], thorough=[dict(shape=s) for s in ([2, 1], [1, 2], [2, 2], [2, 1, 1])])
+def cff2_region_indices_follow_supports(shape):
+    def sup(tag):
+        lo, pk, hi = V.real(tag + '_lo', -1, 1), V.real(tag + '_pk', -1, 1), V.real(tag + '_hi', -1, 1)
+        assume(conj([le(lo, pk), le(pk, hi)]))
+        return {'wght': (lo, pk, hi)}
+    masterSupports, vsindex_dict, vsindex_by_key, varDataList = [], {}, {}, []
+    models = []
+    for mi, n in enumerate(shape):
+        sups = [sup('m%ds%d' % (mi, i)) for i in range(n)]
+        for a in range(n):
+            for b in range(a + 1, n):
+                assume(neg(conj([eq(x, y) for x, y in zip(sups[a]['wght'], sups[b]['wght'])])))      # the supports of ONE model are distinct regions
+        model = Rec(supports=[{}] + sups)
+        models.append(model)
+        vs = VCFF._add_new_vsindex(model, ('key', mi), masterSupports, vsindex_dict, vsindex_by_key, varDataList)
+        ob('vsindex-is-position', vs == mi and vsindex_by_key[('key', mi)] == mi and len(varDataList) == mi + 1)
+    conds = []
+    for model, vd in zip(models, varDataList):
+        idx = list(vd.VarRegionIndex)
+        conds.append(len(idx) == len(model.supports) - 1)
+        for i, s in zip(idx, model.supports[1:]):
+            conds.append(0 <= i < len(masterSupports) and conj([eq(x, y) for x, y in zip(masterSupports[i]['wght'], s['wght'])]))
+    ob('region-index-points-at-its-support', conj(conds))
+    ob('no-duplicate-regions', conj([neg(conj([eq(x, y) for x, y in zip(masterSupports[a]['wght'], masterSupports[b]['wght'])]))
+                                     for a in range(len(masterSupports)) for b in range(a + 1, len(masterSupports))]))
